@@ -1135,9 +1135,11 @@ impl<'r, 'a> Th<'r, 'a> {
             match world.build(spec_t, s) {
                 Ok(mut n) => {
                     if acq.mutate {
-                        if let (Node::Retry(c), Some(first)) = (&mut n, world.spec.flatten(spec_t, None).first()) {
-                            if let Some(leaf) = world.leaf(first.lid) {
-                                if relist_through_child_mut(c, Node::Leaf(leaf)) {
+                        let fl = world.spec.flatten(spec_t, None);
+                        // the extra listing is of the *last* member: the element routes overwrite the first one
+                        if let (Node::Retry(c), Some(last)) = (&mut n, fl.last()) {
+                            if let Some(leaf) = world.leaf(last.lid) {
+                                if relist_through_child_mut(c, Node::Leaf(leaf)).is_some() {
                                     self.st.probe(|p| p.relisted_through_child_mut += 1);
                                 }
                             }
